@@ -375,11 +375,31 @@ func runScenario(o *hx.Out, k int, sc *scenario) {
 		if p.kind == opAdd {
 			r.checkAdd(line, sc.defs[p.i], addErr, before, after)
 		}
-		before = after
 		canon += fmt.Sprintf("|%s>%s:%s", line, res, csv(after.list))
 		if len(after.list) == sc.cap {
 			o.Count("state:full")
 		}
+		if p.kind == opStale && len(after.list) < len(before.list) {
+			o.Count("stale:dropped-some")
+			dropped := map[int]bool{}
+			for _, i := range p.drops {
+				dropped[i] = true
+			}
+			inAfter := map[int]bool{}
+			for _, i := range after.list {
+				inAfter[i] = true
+			}
+			for _, i := range before.list {
+				if !inAfter[i] && !dropped[i] {
+					if sc.defs[i].tx.FeePerByte() < p.fpb {
+						o.Count("stale:dropped-by-policy")
+					} else {
+						o.Count("stale:dropped-by-balance")
+					}
+				}
+			}
+		}
+		before = after
 	}
 	o.Seen(canon)
 	if k < 3 {
